@@ -973,3 +973,17 @@ Proof.
   rewrite <- (pop_run_is_exp_run U (norm N) units dt rows (wf_norm N Hwf) Hu Hg).
   unfold pop_run. rewrite (norm_id (norm N) (conn_guard_norm N HF)). reflexivity.
 Qed.
+
+(* scope of the tie to the REAL explicit circuit: its scalar edges do not apply a weight within weight_tol of 1, for matrix
+   entries too, whereas the Spec keeps matrix entries as they are.  On the tie domain (no entry within the tolerance of 1
+   other than 1 itself: the predicate of g_not_near_one) that elision is the identity, so Spec = real explicit circuit there;
+   outside it the two differ by at most weight_tol * |source| per entry. *)
+Lemma elide_identity_on_tie_domain (W : mat) :
+  forallb (forallb (fun w => negb (near_one w) || Qceqb w 1)) W = true -> map (map elide) W = W.
+Proof.
+  intros H. transitivity (map (fun r : vec => r) W); [|apply map_id]. apply map_ext_in. intros r Hr.
+  rewrite forallb_forall in H. specialize (H r Hr). transitivity (map (fun w : Qc => w) r); [|apply map_id].
+  apply map_ext_in. intros w Hw. rewrite forallb_forall in H. specialize (H w Hw). unfold elide.
+  destruct (near_one w); [|reflexivity]. cbn [negb orb] in H. unfold Qceqb in H. apply Qeq_bool_eq in H.
+  apply Qc_is_canon in H. now subst w.
+Qed.
